@@ -475,6 +475,24 @@ func main() {
 			fmt.Printf("-- %s: %v\n", a.Name, t.err)
 			continue
 		}
+		if a.Params != nil {
+			// The tie lemma is about a term over the recorded identifiers. When the code was restructured so
+			// that the anchored expression is now written over OTHER identifiers (a table lookup instead of
+			// arithmetic, a value threaded through a new local that cannot be inlined), the anchor no longer
+			// denotes the quantity the lemma talks about: it is lost (a note and an escalated correspondence
+			// search), not a changed expression.
+			same := len(t.params) == len(a.Params)
+			for _, p := range t.params {
+				if !t.expected(p) {
+					same = false
+				}
+			}
+			if !same {
+				lost = append(lost, a.Name)
+				fmt.Printf("-- %s: written over other identifiers now (%s; the tie lemma expects %s)\n", a.Name, strings.Join(t.params, " "), strings.Join(a.Params, " "))
+				continue
+			}
+		}
 		ps := ""
 		if len(t.params) > 0 {
 			ps = " (" + strings.Join(t.params, " ") + " : BitVec 64)"
